@@ -165,6 +165,46 @@ def explain_path(m1: str, m2: str) -> str:
 	return f'output_dirs {CONFIGS[CONFIG]!r}: modules {m1!r} and {m2!r} -> {runner.fetch_output_path(m1.replace(".", "/") + ".h")!r} / {runner.fetch_output_path(m2.replace(".", "/") + ".h")!r}'
 
 
+ELEMS = ['s', 'x', 'u']
+ELEM_CONFIGS = [['s/:out', 'fb'], ['s/:out', 'x/:gen', 'fb']]
+
+
+def elem_sequences() -> list:
+	"""module paths under the rule folder `s` (<= 4 elements, so the folder name can recur deeper) and a few outside it"""
+	import itertools
+	out = [('x',), ('u',), ('x', 'u'), ('out', 'u'), ('x', 's', 'u')]
+	for n in range(0, 4):
+		out.extend(('s',) + t for t in itertools.product(ELEMS, repeat=n))
+	return out
+
+
+SEQS = elem_sequences()
+
+
+def check_elem_paths(i: int, j: int, cfg: int) -> bool:
+	if i == j:
+		return True
+	runner = make_runner(ELEM_CONFIGS[cfg], {}, {'hash': 'h'}, {'version': 'v', 'module': 'm'})
+	p1 = runner.output_filepath(ModulePath('.'.join(SEQS[i]), language='py'))
+	p2 = runner.output_filepath(ModulePath('.'.join(SEQS[j]), language='py'))
+	if SEQS[i][0] == 's' and 's' in SEQS[i][1:]:
+		cover('rule_folder_recurs')
+	return p1 != p2
+
+
+ROW = CASE.get('row')
+
+
+def elem_paths_law(i: int, j: int, cfg: int) -> bool:
+	"""
+	pre: 0 <= i < len(SEQS) and 0 <= j < len(SEQS) and 0 <= cfg < len(ELEM_CONFIGS)
+	pre: ROW is None or i % 4 == ROW
+	post: _
+	"""
+	# module paths as element sequences (so that a rule's folder name can recur deeper in the path)
+	return ok(natively(check_elem_paths, decode(i, len(SEQS)), decode(j, len(SEQS)), decode(cfg, len(ELEM_CONFIGS))))
+
+
 def glob_paths_closed() -> bool:
 	"""glob rules ('dir/*:out') go through re.fullmatch: closed over a finite family of module names"""
 	import itertools
@@ -183,4 +223,5 @@ def glob_paths_closed() -> bool:
 
 CLASSIFIERS: dict = {}
 EXPLAIN = {'header_law': explain_header, 'path_law': explain_path,
+	'elem_paths_law': lambda i, j, cfg: f'output_dirs {ELEM_CONFIGS[cfg]!r}: modules {".".join(SEQS[i])!r} and {".".join(SEQS[j])!r} share an output path',
 	'decision_law': lambda changed, has_file, has_header: f'changed component #{changed}, output file present={has_file}, header present={has_header}: can_transpile answers the opposite of "no old header or some component differs"'}
